@@ -148,7 +148,7 @@ pub fn predict(tree: &Tree, inv: &Inv, fired: &Fired, oracle: &mut Oracle) -> Pr
         files: tree.keys().map(|k| (k.clone(), FileExpect::Unchanged)).collect(),
         stdout: None,
         markers: Vec::new(),
-        level: if fired.crashed || fired.std_stream_failed { Level::Safety } else { Level::Full },
+        level: if fired.crashed || fired.std_stream_failed || fired.lock_refused { Level::Safety } else { Level::Full },
         any_unformatted: false,
         any_unreadable: false,
         walk_fault: !fired.walk_failed.is_empty(),
@@ -198,6 +198,37 @@ pub fn predict(tree: &Tree, inv: &Inv, fired: &Fired, oracle: &mut Oracle) -> Pr
         Shape::Files { mode, paths } => {
             let mut seen_named: BTreeSet<String> = BTreeSet::new();
             for path in paths {
+                if path == "/dev/stdin" {
+                    // `gen | typstyle /dev/stdin`: a path whose content is the (piped) standard
+                    // input - not a regular file, cannot be read twice, st_size 0
+                    let bytes = inv.stdin.as_ref().map(|b| b.0.clone()).unwrap_or_default();
+                    if let Ok(t) = std::str::from_utf8(&bytes) {
+                        markers.extend(markers_in(t));
+                    }
+                    // a second occurrence finds the pipe at end of file
+                    let first = !p.inputs.iter().any(|i| i.named == "/dev/stdin");
+                    let bytes = if first { bytes } else { Vec::new() };
+                    let (class, new) = match classify(&bytes, cfg, oracle) {
+                        Ok(x) => x,
+                        Err(()) => {
+                            p.oracle_unavailable = true;
+                            return p;
+                        }
+                    };
+                    match &class {
+                        InputClass::Unreadable(_) => p.any_unreadable = true,
+                        InputClass::Erroneous | InputClass::Formatted => stdout.extend_from_slice(&bytes),
+                        InputClass::Unformatted => {
+                            p.any_unformatted = true;
+                            stdout.extend_from_slice(new.as_ref().unwrap().as_bytes());
+                            if *mode == Mode::Inplace {
+                                p.unmodelled = Some("-i on /dev/stdin");
+                            }
+                        }
+                    }
+                    p.inputs.push(InputInfo { named: "/dev/stdin".into(), class, len: bytes.len() });
+                    continue;
+                }
                 let Some(named) = resolve(&inv.cwd, path) else {
                     p.unmodelled = Some("path leaves the world");
                     return p;
@@ -518,7 +549,7 @@ pub fn check(
                 &["C14"],
                 "I14.3-exit-stdstream",
                 step,
-                format!("check mode exit status 0 after a failed write to stdout/stderr although an input differs or is unreadable (inputs: {})", summarise_inputs(pred)),
+                format!("check mode exit status 0 after a failed write to stdout/stderr (or a refused lock) although an input differs or is unreadable (inputs: {})", summarise_inputs(pred)),
             ));
         }
     }
@@ -534,7 +565,7 @@ pub fn check(
                 &["C15"],
                 "I15.4-exit-stdstream",
                 step,
-                format!("a failure on one input was not reported: exit status 0 after a failed write to stdout/stderr (inputs: {})", summarise_inputs(pred)),
+                format!("a failure on one input was not reported: exit status 0 after a failed write to stdout/stderr or a refused lock (inputs: {})", summarise_inputs(pred)),
             ));
         }
     }
